@@ -124,7 +124,8 @@ def shapes() -> List[Callable[[Flags], Stack]]:
                      leaf=Obj("leaf") if bool(F.b("leaf")) else None)
 
     def s1(F: Flags) -> Stack:
-        inner = Stack(root=None, frames=[mk_frame(F, 2, [mk_ctx(F, flagged=False)])],
+        # (an inner stack may have a leaf / an error and NO frames: e.g. the object could not be unwrapped)
+        inner = Stack(root=None, frames=[mk_frame(F, 2, [mk_ctx(F, flagged=False)])] if bool(F.b("inner_has_frames")) else [],
                       leaf=Obj("ileaf") if bool(F.b("inner_leaf")) else None,
                       error=ValueError("inner boom") if bool(F.b("inner_error")) else None)
         return Stack(root=Obj("root"), frames=[mk_frame(F, 0, [mk_ctx(F, inner=inner), mk_ctx(F, flagged=False, texts=True)])])
